@@ -348,8 +348,7 @@ func (w *world) phase(st *Step) *PhaseObs {
 		dir = w.dirBA
 		hist = &w.histBA
 	}
-	out.Replace(nil)
-	consumed := 0
+	consumed := len(out.Pending())
 	for _, op := range st.SOps {
 		snap := snd.VerifSnapshot()
 		var err error
